@@ -63,6 +63,9 @@ class StoreProbe(object):
         self.s = s
         self.sched = sched
         self.io = s.dev._io_manager
+        from ..harness import find_locks
+        self.io_locks = list(find_locks(self.io).values())
+        self.transport_lock = getattr(self.io, '_transport_lock', None)
         self.dropped = []          # (arg0, arg1) of CLSE packets that put() did not keep because the pair had no entry (K1)
         self.dropped_other = []    # CLSE packets lost although the pair had an entry: never forgiven
         self.lock_issues = []
@@ -75,8 +78,15 @@ class StoreProbe(object):
 
             def wrap(store, *a, _orig=orig, _name=name):
                 if store is probe.io._packet_store and probe.sched is not None and current_task() is not None:
-                    lk = probe.io._store_lock
-                    if getattr(lk, 'owner', None) is not current_task():
+                    # by name when the documented attribute exists; after a rename: any lock of the I/O manager other than the one held
+                    # around transport calls must be held by the caller
+                    lk = getattr(probe.io, '_store_lock', None)
+                    if lk is not None:
+                        held = getattr(lk, 'owner', None) is current_task()
+                    else:
+                        mine = [l for l in probe.io_locks if getattr(l, 'owner', None) is current_task()]
+                        held = any(l is not probe.transport_lock for l in mine) if probe.transport_lock is not None else bool(mine)
+                    if not held:
                         probe.lock_issues.append('_AdbPacketStore.%s called by %s without holding the store lock' % (_name, current_task().name))
                 had_entry = None
                 if _name == 'put' and a[2] == b'CLSE' and store is probe.io._packet_store:
@@ -187,15 +197,21 @@ def run_threads(params, ch):
             s.dev._local_id = params['local_id']
         sc = Scheduler(ch, max_steps=params.get('max_steps', 6000), trace_codes=trace_codes(params.get('trace', 0)))
         io = s.dev._io_manager
-        sc.locks = [io._transport_lock, io._store_lock, s.dev._local_id_lock]
+        from ..harness import find_locks
+        sc.locks = list(find_locks(s.dev, io).values())
         probe = StoreProbe(s, sc)
         s.env.sched = sc
         s.env.who = lambda: getattr(current_task(), 'tid', None)
         _orig_pt = sc.point
 
         def io_point(why, line=None):
-            if why == 'io' and current_task() is not None and getattr(io._transport_lock, 'owner', None) is not current_task():
-                probe.lock_issues.append('transport call by %s without holding the transport lock' % current_task().name)
+            if why == 'io' and current_task() is not None:
+                tl = getattr(io, '_transport_lock', None)
+                held = (getattr(tl, 'owner', None) is current_task()) if tl is not None else any(getattr(l, 'owner', None) is current_task() for l in probe.io_locks)
+                if held and tl is None and probe.transport_lock is None:
+                    probe.transport_lock = next(l for l in probe.io_locks if getattr(l, 'owner', None) is current_task())   # learnt: the lock held around I/O
+                if not held:
+                    probe.lock_issues.append('transport call by %s without holding the transport lock' % current_task().name)
             return _orig_pt(why, line)
         sc.point = io_point
         for op in ops:
